@@ -11,6 +11,28 @@ RULE = ("for M-Core modules: the model's re-parsed text equals the implementatio
         "print(parse(y)) == y byte for byte and the second module must be a closed graph; non-trivial = distinct input text")
 
 
+ILL_TYPED_ACCEPTED = [
+    "@g = global <2 x i1> <i32 1, i32 0>\n",
+    "@g = global <2 x i32> <i1 true, i1 false>\n",
+    "@g = global [2 x i8] [i32 1, i32 2]\n",
+    "@g = global [2 x i1] [i8 1, i8 0]\n",
+    "@g = global { i8, i1 } { i32 1, i8 1 }\n",
+    "@g = global <2 x i8> <i8 1, i16 2>\n",
+    "define <2 x i1> @f(<2 x i1> %x) {\n\t%r = xor <2 x i1> %x, <i8 1, i8 1>\n\tret <2 x i1> %r\n}\n",
+    "define <2 x i8> @f(<2 x i8> %x) {\n\t%r = add <2 x i8> %x, <i1 true, i1 false>\n\tret <2 x i8> %r\n}\n",
+]
+
+
+# all-digit names written in quotes with leading zeros (type, local, global): whatever name the parser gives them, one parse+print step must be normal form
+QUOTED_DIGIT_NAMES = [
+    '%"007" = type { i32, i8 }\n@g = global %"007" zeroinitializer\n',
+    '%"042" = type { i8 }\n%42 = type { i16 }\n@g = global %"042" zeroinitializer\n@h = global %42 zeroinitializer\n',
+    '%"00" = type opaque\n@g = global %"00"* null\n',
+    'define void @f(i32 %"007") {\n\t%"08" = add i32 %"007", 1\n\tret void\n}\n',
+    '@"007" = global i32 0\n@p = global i32* @"007"\n',
+]
+
+
 def respell(rng, text):
     """non-canonical spellings of the same module"""
     import re
@@ -72,6 +94,10 @@ def gen(tier, rng, harness=None):
         for v in sorted({2**(w - 1) - 1, 2**(w - 1), 2**(w - 2), 2**w - 1, 2**(w - 1) + 2**(w - 5)} | ({4096, 65535} if w > 16 else set())):
             a = "- 67:g:i%d=i%d" % (w, v)
             lines += ["core2.reparse " + a, "!core2.rt " + a]
+    # inputs the parser accepts although LLVM would not: element annotations of an aggregate constant that differ from the element type of the aggregate
+    # (they are kept as written); the printed text must still be a fixpoint
+    for t in ILL_TYPED_ACCEPTED + QUOTED_DIGIT_NAMES:
+        lines.append("!mod.stable - %s" % hx(t))
     from . import metagen
     lines += metagen.print_lines(rng, n)
     from . import wholegen
